@@ -34,6 +34,8 @@ Definition spec_arith (op : arop) (a b : num) : option (res num) :=
   | NInt x, NFloat g => Some (Ok (NFloat (float_do op (of_Z x) g)))
   | NFloat f, NChar y => Some (Ok (NFloat (float_do op f (of_Z y))))
   | NChar x, NFloat g => Some (Ok (NFloat (float_do op (of_Z x) g)))
+  | NFloat f, NUint y => Some (Ok (NFloat (float_do op f (of_Z y))))
+  | NUint x, NFloat g => Some (Ok (NFloat (float_do op (of_Z x) g)))
   | _, _ =>
       (* other combinations: only "division by zero is an error" is specified *)
       match op, b with
